@@ -29,7 +29,7 @@ observation:
   `shut` and `wblk` depend on the peer and the transport, not on the loop: the model line copies them, the monitor checks `shut`.
 
 This file is the STRING LAYER only: token parser (`parseScenario`, `parseSess`, `parseObs`), renderer
-(`renderObs`) and clause texts (`Clause.text`).  The model line is `KeepAlive.obsOf` (Monitor.lean:
+(`renderObs`) and clause texts (`Clause.text`).  The model line is `KeepAlive.modelObs` (Monitor.lean:
 `runCancel`, `warnsCancel`, `endAt`) rendered; the monitor is `KeepAlive.monitor` (Monitor.lean), bridged
 to the model by Bridge.lean and to the property text by Sound.lean.  The string layer is checked at run
 time on every record: the model's observation must survive rendering and parsing (`LIBDISC render/parse`
@@ -188,7 +188,7 @@ def selfCheck (m : Obs) : Option String :=
 
 def judge (sc : Scenario) (impl : String) : Verdict :=
   let o := parseObs impl
-  let m := obsOf sc (o.bind (·.sess))
+  let m := modelObs sc (o.bind (·.sess))
   let viol : Option String := match o with
     | none => some (Clause.text impl .badObs)
     | some o => (monitor sc o).map (Clause.text impl)
